@@ -157,8 +157,10 @@ void execute_c02(const Plan &plan, Verdict &v) {
         World w(cfg);
         std::vector<Pat> pats;
         std::vector<std::string> patstr;
+        std::vector<bool> is_null;
         for (const Op &op : plan.ops)
             if (op.kind == "pat" && op.has_s && patstr.size() < 40) {
+                is_null.push_back(op.arg(0) != 0);   // entry with a NULL callback: a defined header with no action
                 Pat p = parse_pattern(op.s);
                 if (!p.ok) {
                     v.trace_hash = 2;   // not a pattern of the supported grammar: inert plan
@@ -185,6 +187,10 @@ void execute_c02(const Plan &plan, Verdict &v) {
         std::vector<int> seen_tags;
         for (size_t i = 0; i < pats.size(); i++) {
             std::string canon = canonical_spelling(pats[i]);
+            if (is_null[i]) {
+                w.add_null_command(patstr[i]);
+                continue;
+            }
             w.add_command(patstr[i], [&w, &v, i, canon](World &ww) {
                 // the handler can recover the matched entry: tag and pattern test
                 if (!v.violated && SCPI_CmdTag(ww.ctx) != (int32_t) i)
@@ -356,7 +362,16 @@ void execute_c02(const Plan &plan, Verdict &v) {
                 for (int e : u.errs) n113 += e == -113;
                 std::string ctx = fmt("unit %zu \"%s\" (effective \"%s\") of \"%s\"", k, c_escape(units[k].written).c_str(), c_escape(exp[k].eff).c_str(),
                                       c_escape(op.s).substr(0, 100).c_str());
-                if (exp[k].entry >= 0) {
+                if (exp[k].entry >= 0 && is_null[(size_t) exp[k].entry]) {
+                    // the first accepting entry has no callback: nothing may run and the header is not undefined
+                    COUNT("probe_null_callback_entry_selected");
+                    if (u.invocations != 0)
+                        v.fail("wrong-handler", fmt("inv=%d tag=%d want=null-entry-%d", u.invocations, u.tag, exp[k].entry),
+                               fmt("%s: the first accepting entry %d \"%s\" has no callback, but entry %d ran", ctx.c_str(), exp[k].entry,
+                                   patstr[(size_t) exp[k].entry].c_str(), u.tag));
+                    else if (n113)
+                        v.fail("spurious-113", "null-entry", ctx + ": -113 raised although an entry (without callback) accepts the header");
+                } else if (exp[k].entry >= 0) {
                     if (u.invocations != 1 || u.tag != exp[k].entry)
                         v.fail("wrong-handler", fmt("inv=%d tag=%d want=%d %s", u.invocations, u.tag, exp[k].entry, k && exp[k - 1].entry < 0 ? "after-undefined" : ""),
                                fmt("%s: expected exactly one invocation of entry %d \"%s\", got %d invocation(s), tag %d%s", ctx.c_str(), exp[k].entry,
@@ -502,8 +517,9 @@ void generate_c02(Rng &r, const GenOpts &g, Plan &p) {
         if (r.chance(1, 3)) table.push_back(table[r.below(table.size())]);
     }
     std::vector<Pat> pats;
+    bool null_entries = r.chance(1, 3);
     for (auto &t : table) {
-        p.ops.push_back(Op("pat", {}, t));
+        p.ops.push_back(Op("pat", {(null_entries && r.chance(1, 4)) ? 1L : 0L}, t));
         pats.push_back(parse_pattern(t));
     }
     if (r.chance(1, 5)) p.knob["inbuf"] = r.range(80, 160);
@@ -558,7 +574,7 @@ const Property C02 = {
     {"malloc"},
     generate_c02,
     execute_c02,
-    {"probe_relative_header_composed", "probe_undefined_header", "probe_unit_after_undefined_header", "fault_alloc_failed_113_text", "fault_broken_predecessor",
+    {"probe_relative_header_composed", "probe_undefined_header", "probe_unit_after_undefined_header", "probe_null_callback_entry_selected", "fault_alloc_failed_113_text", "fault_broken_predecessor",
      "fault_oversize_chunk"},
     "per run a command table drawn from the supported pattern grammar (1..4 keywords from a pool with pairwise distinct short/long forms, [:OPT] keywords incl. the first, "
     "KEY#, trailing ?, common *XYZ, shared first keywords, duplicated entries; 1 run in 5 uses the tables shipped in tests/examples) and 1..6 messages of 1..6 units whose "
